@@ -106,6 +106,9 @@ class CliWorld(ConnWorld):
         elif kind in ("disc", "force"):
             if kind == "disc":
                 self.disc_inflight -= 1
+                if out == "cancelled":
+                    # a disconnect() the caller abandoned has closed nothing: attempts keep running, a live session stays alive
+                    return
             # "after disconnect() was called at any stage": the connection it was called on is gone; attempts on it that are
             # still unwinding are doomed and no longer count.  A newer attempt accepted meanwhile is not affected.
             ep, names = self.disc_scope.get(name, (self.epoch, tuple(self.inflight)))
@@ -164,6 +167,9 @@ class CliHarness:
         if w.between and not w.inflight:
             base.append("finish")
         base += ["disc", "force", "cmd", "sub", "req"]
+        if any(n.startswith("disc#") and w.pending(n) for n in w.tasks):
+            # the caller gives up on a graceful disconnect() that has not returned yet (its own timeout, a cancelled task)
+            base.append("cancel_disc")
         if w.alive or any(k in ("finish", "connect") for k in w.inflight.values()):
             # a redundant finish_connection(): the session is alive, or the second connect phase is already running
             base.append("refinish")
@@ -207,6 +213,8 @@ class CliHarness:
                 w.spawn(name, lambda: w.client.disconnect())
             else:
                 w.spawn(name, lambda: w.client.disconnect(force=True))
+        elif label == "cancel_disc":
+            w.cancel(next(n for n in w.tasks if n.startswith("disc#") and w.pending(n)))
         elif label in WORK:
             self._work(w, label)
         elif label in ("tcp_ok", "tcp_refused"):
